@@ -294,7 +294,9 @@ Inductive recop :=
 | RPut (key : N) (name : bytes) (ok : bool) | RGet (key : N) (r : dres)
 (* RPutC key rname cont ok = PutJSON of a record of type rname in container cont; RGetC key r =
    Records.Get(key) and the container name it was decoded with (the row stores the container ID) *)
-| RPutC (key : N) (rname cont : bytes) (ok : bool) | RGetC (key : N) (r : dres).
+| RPutC (key : N) (rname cont : bytes) (ok : bool) | RGetC (key : N) (r : dres)
+(* the code under test panicked while the running application was being observed: never accepted *)
+| RPanic.
 
 Inductive step :=
 | TStart (retry : bool) (qn cn sn docs : list bytes) (f : fault) (code : N) (d : dump)
@@ -379,6 +381,7 @@ Fixpoint recs_agree (mq mc : mem) (qn docs : list bytes) (stored : rstore) (ops 
             end
         end in
       if good then recs_agree mq mc qn docs stored r else (false, stored)
+  | RPanic :: _ => (false, stored)
   end.
 
 Definition code_of (o : sout) : N := match o with SOk _ _ _ => 0 | SErr e => e end.
@@ -485,6 +488,7 @@ Fixpoint recs_ok (qn cn : list bytes) (written : wstore) (ops : list recop) : bo
             else match res with DName x => lex_eqb x w | _ => true end
         end in
       if good then recs_ok qn cn written r else (false, written)
+  | RPanic :: _ => (false, written)
   end.
 
 (* a Rename that reported a storage failure must have taken effect completely or not at all:
@@ -524,7 +528,8 @@ Fixpoint satisfies_from (o : ost) (t : list step) : bool :=
   match t with
   | [] => true
   | TStart retry qn cn sn docs f code d qids sids recs :: rest =>
-      if code =? 0 then
+      if code =? 99 then false   (* the start panicked *)
+      else if code =? 0 then
         let gq := fun n => lookup_o n qids in
         let gc := fun n => lookup n (d_c d) in
         let gs := fun n => lookup_o n sids in
@@ -543,7 +548,8 @@ Fixpoint satisfies_from (o : ost) (t : list step) : bool :=
       else satisfies_from (mkOst (o_kq o) (o_kc o) (o_ks o) (o_written o) (o_pend o) (negb retry || o_newproc o)) rest
   | TRename old new f code d :: rest =>
       let pend := filter (fun e => negb (touches old new e)) (o_pend o) in
-      if code =? 0 then
+      if code =? 99 then false   (* the Rename panicked *)
+      else if code =? 0 then
         satisfies_from (mkOst (move old new (o_kq o)) (o_kc o) (move old new (o_ks o)) (drop_written old (o_written o)) pend false) rest
       else if code =? 1 then
         match lookup old (o_kq o) with
